@@ -50,9 +50,9 @@ CBlock Build(ck::Node& n, const CBlockIndex* prev, int pad, int extra_nonce)
     ck::BlockOpts bo;
     bo.extra_nonce = extra_nonce;
     for (int left = pad; left > 0; left -= 9000) {
-        CScript spk;
-        spk << OP_RETURN;
-        spk.resize(1 + std::min(left, 9000), 0x42);
+        std::vector<unsigned char> raw((size_t)std::min(left, 9000) + 1, 0x42);
+        raw[0] = OP_RETURN;
+        const CScript spk(raw.begin(), raw.end());
         bo.extra_coinbase_outputs.push_back({0, spk});
     }
     return ck::MakeBlock(n, prev, {}, bo);
@@ -105,7 +105,9 @@ std::vector<BlockRec> Snapshot(ck::Node& n)
 
 fs::path g_scratch;
 
-void PrivateBlocksDir(ck::Node& n)
+// Hard links are enough (and cheap) when the scenario only prunes: pruning unlinks names, it never writes into a
+// block file. Scenarios that also write new blocks get real copies.
+void PrivateBlocksDir(ck::Node& n, bool will_write)
 {
     auto& bm = n.chainman().m_blockman;
     const fs::path old = bm.m_block_file_seq.m_dir;
@@ -114,7 +116,7 @@ void PrivateBlocksDir(ck::Node& n)
     for (const auto& e : fs::directory_iterator(old)) {
         if (!e.is_regular_file()) continue;
         const fs::path to = dir / fs::PathFromString(fs::PathToString(e.path().filename()));
-        if (link(fs::PathToString(e.path()).c_str(), fs::PathToString(to).c_str()) != 0) fs::copy_file(e.path(), to);
+        if (will_write || link(fs::PathToString(e.path()).c_str(), fs::PathToString(to).c_str()) != 0) fs::copy_file(e.path(), to, fs::copy_options::overwrite_existing);
     }
     const_cast<fs::path&>(bm.m_block_file_seq.m_dir) = dir;
     const_cast<fs::path&>(bm.m_undo_file_seq.m_dir) = dir;
@@ -138,7 +140,7 @@ void RunScenario(ck::Node& n, const Layout& L, const Scen& s, fp::Out& o)
     auto V = [&](const std::string& key, const std::string& what) { o.violation("C19 " + key + " | " + tag, what, "scenario: " + tag); };
     auto& bm = n.chainman().m_blockman;
     Chainstate& cs = n.cs();
-    PrivateBlocksDir(n);
+    PrivateBlocksDir(n, /*will_write=*/s.mode == 2);
     std::vector<int> ref_locks = s.locks; // reference lock positions (moved back by a reorg)
     {
         LOCK(cs_main);
@@ -370,8 +372,10 @@ int main(int argc, char** argv)
     std::string layout_info;
     bool cut = false;
 
+    const char* only = getenv("VX_C19_ONLY"); // diagnostics: "layout:tip"
     for (const Layout& L : layouts) {
         if (cut) break;
+        if (only && std::string(only).find(L.name) == std::string::npos) continue;
         ck::NodeOpts o;
         o.extra_args = {"-fastprune", "-prune=550"};
         o.min_validation_cache = true;
@@ -385,6 +389,7 @@ int main(int argc, char** argv)
         auto checkpoint = [&]() {
             const int tip = node.height();
             if (!TIPS.count(tip) || done.count(tip) || cut) return;
+            if (only && std::string(only).find(":" + std::to_string(tip)) == std::string::npos) return;
             done.insert(tip);
             if (ck::ThreadCount() != 1) { printf("HARNESS-ERROR C19 process is not single-threaded before fork\n"); exit(2); }
             const std::vector<Scen> sc = Scenarios(tip, big);
@@ -398,6 +403,14 @@ int main(int argc, char** argv)
             for (auto& s : pool.samples) if (samples.size() < 10) samples.push_back(s);
             jobs += pool.jobs_done;
             if (!pool.complete) cut = true;
+            {
+                // the base node's own files must be untouched by the forked scenarios
+                LOCK(cs_main);
+                for (auto& [h, bi] : node.chainman().m_blockman.m_block_index) {
+                    CBlock rd;
+                    if ((bi.nStatus & BLOCK_HAVE_DATA) && !node.chainman().m_blockman.ReadBlock(rd, bi)) { printf("HARNESS-ERROR C19 base node block files were damaged by a scenario (height %d)\n", bi.nHeight); exit(2); }
+                }
+            }
             int files = 0;
             { LOCK(cs_main); for (auto& fi : node.chainman().m_blockman.m_blockfile_info) files += fi.nSize > 0; }
             printf("layout %s tip %d: %zu scenarios, %d block files, %.1fs\n", L.name.c_str(), tip, sc.size(), files, vx::elapsed());
